@@ -121,6 +121,7 @@ func VerifC17_loop_commands() {
 	e, _ := vLoopSetup(n, false, false)
 	d := e.d
 	K := vParam("C", 2)
+	var addedChans []chan int
 	reads := make([]int, 0)
 	watchOld := func(ch chan int, what string) {
 		vOnRecv(ch, func(v any, ok bool) {
@@ -136,6 +137,7 @@ func VerifC17_loop_commands() {
 				ch <- vNondetInt("item")
 			}
 			close(ch)
+			addedChans = append(addedChans, ch)
 			vPark(d.inputAdds, inputAdd[int]{channel: ch, priority: e.ps[k]})
 			kk := k
 			_ = reads
@@ -189,6 +191,13 @@ func VerifC17_loop_commands() {
 	e.assertRegistered("after the command sequence")
 	g := vSumAssert("in flight at return", e.inflight()...)
 	vAssert(g == 0, "C17/C07: graceful termination across additions and removals still waits for every release")
+	// every channel that is registered at the end was read to its end (nothing written before its close is lost)
+	for i := range e.ps {
+		if !e.removed[i] {
+			vAssert(len(e.ins[i]) == 0 && vParkedLen(e.ins[i]) == 0, "C02/C17: at graceful termination every item written to a registered (possibly re-added) channel before its close was delivered")
+		}
+	}
+	_ = addedChans
 	for i, p := range e.ps {
 		if !e.removed[i] {
 			vAssert(d.inputs[p].Drained, "C17/C07: graceful termination only when every remaining input is drained")
